@@ -26,7 +26,7 @@ CHECKS = {
  'C12': ('model_checking', 'In every explored state: read before / after each maintenance operation (commit incl. automatic array-conflict resolution, full snapshot, meld without refresh, refresh / reload when nothing is unapplied) and their compositions.', TRUST, BFS + ' with a differential read oracle', 'DESIGN.md §4 C12', 'H'),
  'C14': ('model_checking', 'Every recorded head set of every replica is revisited from every later explored state: reload_until / new_until must reproduce the recorded view, tree dumps and every revision\'s value and parent; reload returns to the latest state; repeated for cache capacities 1 and 16.', TRUST, BFS + ' with recorded-state differential oracle', 'DESIGN.md §4 C14', 'H'),
  'C15': ('model_checking', 'In every explored state with staged changes: unstage == last clean state (view + full tree dumps), export/discard/replay == identity, commit after the round trip == direct commit, reload/refresh/time travel refuse and change nothing; after every commit nothing is staged.', TRUST, BFS + ' with recorded-state differential oracle', 'DESIGN.md §4 C15', 'H'),
- 'C16': ('exploration', '(a) all ordered pairs of sequences with repetition (k symbols, length <= 6) through make_diff_patch/apply_diff_patch; (b) every chain up to length 3/4 over the 16 duplicate-free arrays on 3 ids plus key-absent, through update/commit/read/reopen and per-version reconstruction, for 6 cache-capacity configurations.', TRUST, 'exhaustive enumeration of sequence pairs and update chains on the real implementation + BFS over multi-replica histories with ground-truth versions + preemption-bounded schedule exploration of the cache shortcut', 'DESIGN.md §4 C16', 'P,H,S'),
+ 'C16': ('exploration', '(a) all ordered pairs of sequences with repetition (k symbols, length <= 6) through make_diff_patch/apply_diff_patch; (b) every chain up to length 3/4 over the 16 duplicate-free arrays on 3 ids plus key-absent, through update/commit/read/reopen and per-version reconstruction, for 6 cache-capacity configurations; (b2) every chain length 1..40 (thorough 1..96) of single-step edits of one array x array-cache capacity {1,2}: a freshly opened replica reads the last submitted version.', TRUST, 'exhaustive enumeration of sequence pairs and update chains on the real implementation + BFS over multi-replica histories with ground-truth versions + preemption-bounded schedule exploration of the cache shortcut', 'DESIGN.md §4 C16', 'P,H,S'),
  'C17': ('model_checking', 'Engine A: BFS over write/reopen sequences (abstract-state deduplicated) on memory, directory, SQLite file, SQLite in-memory x {plain, Deflate, Brotli}; after every step whole reads, every small slice, boundary slices and listings are compared with a first-write-wins map; then fixed replica histories over every backend compared with the in-memory baseline. Construction routes: constructor, URL factory, alternating, relative URL (SQLite), URL with a localhost authority; short-key pass (1-3 character and multi-byte keys).', 'Solid backend excluded (network). Keys ASCII, >= 2 chars; ranged reads non-empty and in range.', 'explicit-state BFS of the real adapters against a reference map', 'DESIGN.md §4 C17', 'A'),
  'C18': ('model_checking', 'Every distinct state of the four scenarios (two-replica array edits, conflict, single first commit, and a cold chain of two stored array patches above a fork with read/reopen as operations) is re-evaluated under rayon pool sizes 2..16, reversed/rotated hash-iteration orders, reversed/rotated listing orders, cache capacities {1,2,16}^2, and every permutation at every single iteration site of 2..4 elements (short histories); views must equal the baseline.', TRUST + 'Real rayon timing is not enumerated here.', BFS + ' + exhaustive configuration sweep per state + preemption-bounded exhaustive schedule exploration', 'DESIGN.md §4 C18', 'H,S'),
  'C19': ('exploration', 'All revisions reachable through the system\'s constructors to a depth bound: purity, print/parse round trip, loader reconstruction, and all ordered triples for the total-order axioms; plus every ordered pair of menu documents applied independently on two replicas (same identifiers, no conflict after sync). Engine H: in every state of conflict / resolution / full-snapshot / time-travel histories every revision of every tree is recomputed from its parent and digest.', TRUST, 'exhaustive enumeration of a constructor-closed revision universe (all triples)', 'DESIGN.md §4 C19', 'P,H'),
